@@ -55,7 +55,7 @@ try:
         else:
             out = out + out2
             # last resort: GNU patch with fuzz (context lines moved or were re-commented by later repairs)
-            sh('git checkout -q -- .', cwd=wt)
+            sh('git reset -q --hard HEAD', cwd=wt)
             rc, out3 = sh(f'patch -p1 -F3 --no-backup-if-mismatch -s < {os.path.abspath(src)}/patch.diff', cwd=wt)
             if rc == 0:
                 rec['rebased'] = 'fuzz'
